@@ -160,6 +160,61 @@ impl FileReadWriteVolatile for LimSrc {
     }
 }
 
+// ---- a scripted source: the n-th call of ANY read method gets the n-th answer of the script:
+//      <k> = deliver up to k bytes of the stream, e = fail, i = ErrorKind::Interrupted; calls beyond the script see end of file.
+//      case syntax: source kind "s<k>.<k>.e.i..." (e.g. s4096.100.e)
+struct ScriptSrc {
+    script: Vec<String>,
+    next: usize,
+    data: Vec<u8>,
+    pos: usize,
+}
+impl ScriptSrc {
+    fn new(kind: &str, data: Vec<u8>) -> Self {
+        ScriptSrc { script: kind[1..].split('.').filter(|x| !x.is_empty()).map(|x| x.to_string()).collect(), next: 0, data, pos: 0 }
+    }
+    fn call(&mut self, bufs: &[FileVolatileSlice]) -> io::Result<usize> {
+        let step = self.script.get(self.next).cloned().unwrap_or_else(|| "0".to_string());
+        self.next += 1;
+        match step.as_str() {
+            "e" => Err(ferr()),
+            "i" => Err(io::Error::new(io::ErrorKind::Interrupted, "verif-eintr")),
+            k => {
+                let mut left = std::cmp::min(num(k) as usize, self.data.len() - self.pos);
+                let mut n = 0;
+                for b in bufs {
+                    let take = std::cmp::min(left, b.len());
+                    unsafe { std::ptr::copy_nonoverlapping(self.data.as_ptr().add(self.pos), b.as_ptr(), take) };
+                    self.pos += take;
+                    left -= take;
+                    n += take;
+                }
+                Ok(n)
+            }
+        }
+    }
+}
+impl FileReadWriteVolatile for ScriptSrc {
+    fn read_volatile(&mut self, s: FileVolatileSlice) -> io::Result<usize> {
+        self.call(&[s])
+    }
+    fn read_vectored_volatile(&mut self, bufs: &[FileVolatileSlice]) -> io::Result<usize> {
+        self.call(bufs)
+    }
+    fn write_volatile(&mut self, _s: FileVolatileSlice) -> io::Result<usize> {
+        Err(ferr())
+    }
+    fn read_at_volatile(&mut self, s: FileVolatileSlice, _o: u64) -> io::Result<usize> {
+        self.call(&[s])
+    }
+    fn read_vectored_at_volatile(&mut self, bufs: &[FileVolatileSlice], _o: u64) -> io::Result<usize> {
+        self.call(bufs)
+    }
+    fn write_at_volatile(&mut self, _s: FileVolatileSlice, _o: u64) -> io::Result<usize> {
+        Err(ferr())
+    }
+}
+
 // ---- async variants (feature async-io): executor, async sources/sinks, pwrite interposition ----------------
 #[cfg(feature = "async-io")]
 mod aio {
@@ -638,8 +693,34 @@ fn virtio_case(line: &str) -> String {
             RawDescriptor::from(SplitDescriptor::new(num(p[0]), num(p[1]) as u32, flags, 0))
         })
         .collect();
-    let vq = MockSplitQueue::create(&mem, GuestAddress(qaddr), 16);
-    let chain = vq.build_desc_chain(&descs).expect("build_desc_chain");
+    // queue size (default 16) and, instead of `descs=`, the driver's tables verbatim: raw=idx:addr:len:flags:next,...
+    // (slots of the descriptor table) and ind=gaddr:addr:len:flags:next,... (16-byte descriptors written straight
+    // into guest memory: indirect tables); the chain starts at slot 0
+    let qsize: u16 = if kv(line, "qsize").is_empty() { 16 } else { num(kv(line, "qsize")) as u16 };
+    let vq = MockSplitQueue::create(&mem, GuestAddress(qaddr), qsize);
+    let chain = if kv(line, "raw").is_empty() {
+        vq.build_desc_chain(&descs).expect("build_desc_chain")
+    } else {
+        let mut first: Option<RawDescriptor> = None;
+        for d in kv(line, "raw").split(',').filter(|s| !s.is_empty()) {
+            let p: Vec<u64> = d.split(':').map(num).collect();
+            let rd = RawDescriptor::from(SplitDescriptor::new(p[1], p[2] as u32, p[3] as u16, p[4] as u16));
+            vq.desc_table().store(p[0] as u16, rd).expect("store raw descriptor");
+            if p[0] == 0 {
+                first = Some(rd);
+            }
+        }
+        for d in kv(line, "ind").split(',').filter(|s| !s.is_empty()) {
+            let p: Vec<u64> = d.split(':').map(num).collect();
+            let mut b = [0u8; 16];
+            b[..8].copy_from_slice(&p[1].to_le_bytes());
+            b[8..12].copy_from_slice(&(p[2] as u32).to_le_bytes());
+            b[12..14].copy_from_slice(&(p[3] as u16).to_le_bytes());
+            b[14..16].copy_from_slice(&(p[4] as u16).to_le_bytes());
+            mem.write_slice(&b, GuestAddress(p[0])).expect("write indirect descriptor");
+        }
+        vq.build_multiple_desc_chains(&[first.expect("raw slot 0")]).expect("build_multiple_desc_chains")
+    };
     for r in mem.iter() {
         let mr: &vm_memory::MmapRegion<AtomicBitmap> = std::ops::Deref::deref(r);
         mr.bitmap().reset();
@@ -715,6 +796,8 @@ fn virtio_case(line: &str) -> String {
                                 }
                                 "b" => ws[i].write_from(&mut wronly_file(), count),
                                 "l" | "e" | "i" => ws[i].write_from(&mut LimSrc { data, pos: 0, fail: f[3] == "e", intr: f[3] == "i" }, count),
+                                k if k.starts_with('s') => ws[i].write_from(&mut ScriptSrc::new(k, data), count),
+                                k if k.starts_with('S') => ws[i].write_from_at(&mut ScriptSrc::new(k, data), count, 2),
                                 k => panic!("src kind {}", k),
                             };
                             match r {
@@ -728,6 +811,7 @@ fn virtio_case(line: &str) -> String {
                             let r = match f[3] {
                                 "f" => ws[i].write_all_from(&mut memfd(&data), count),
                                 "b" => ws[i].write_all_from(&mut wronly_file(), count),
+                                k if k.starts_with('s') => ws[i].write_all_from(&mut ScriptSrc::new(k, data), count),
                                 _ => ws[i].write_all_from(&mut LimSrc { data, pos: 0, fail: f[3] == "e", intr: f[3] == "i" }, count),
                             };
                             match r {
